@@ -8,7 +8,7 @@ META = {
     "assumptions": ["R-exact (counting and adding)", "pandas is replaced by symx.pd: DataFrame.loc[list, list] reorders rows/columns by label (pandas-documented contract)",
                     "class labels are small integers or fixed strings; weights positive"],
 }
-OPTS = {"quick": {"query_timeout_ms": 30000, "max_paths": 20000}, "thorough": {"query_timeout_ms": 120000, "max_paths": 100000}}
+OPTS = {"quick": {"query_timeout_ms": 30000, "max_paths": 20000, "max_decisions": 2000}, "thorough": {"query_timeout_ms": 120000, "max_paths": 100000, "max_decisions": 20000}}
 PER_CLASS = ["tp", "tn", "fp", "fn", "p", "n", "top", "ton", "tpr", "tnr", "fpr", "fnr", "ppv", "npv", "fdr", "for_", "topr", "tonr", "class_accuracy", "class_error_rate"]
 
 
